@@ -136,6 +136,22 @@ CHECKS = {
         design_ref="DESIGN.md 3/C10", note=ANOTE,
         technique="allocator-value tracking in the abstract interpreter; differential instantiation over trait configurations",
     ),
+    "C11": dict(
+        engine="witness", category="other",
+        text=("Type-level part. W11: every operation of the other properties' drivers (all constructors / assignments / reextent / swap of array and "
+              "static_array, assignment through views, the ~35 view-forming operations on mutable and const views, iterator and elements() arithmetic, "
+              "comparisons, standard algorithms, array_ref over a fancy pointer; D = 1..3; a trivial and a non-trivial element type) that compiles over raw "
+              "pointers also instantiates with array<T,D,StrictAlloc<T>> / subarray<T,D,strict_ptr<T>>, where strict_ptr has arithmetic, comparison, "
+              "dereference and pointer_traits but no conversion to or from T* / void* (positive control: a raw conversion does not compile). W11.types: "
+              "element_ptr, element_const_ptr, data_elements(), base() of that instantiation are the fancy pointer types. R11.flow: in the unoptimised IR of "
+              "the strict instantiation no raw element address obtained from the fancy pointer (operator*, operator->, operator[], addressof, to_address) "
+              "is the base of element address arithmetic inside the library's functions."),
+        design_ref="DESIGN.md 3/C11",
+        note="Not decided: element-for-element equality with the raw-pointer run, and that a bounds-tracking pointer is never dereferenced outside its storage "
+             "(run-time quantities). Projection casts (member_cast, reinterpret_array_cast) reinterpret the pointer object by design and are outside the "
+             "C01-C07 program list. Trusted: clang 14 front end and -O0 IR, the strict_ptr / StrictAlloc model in checks/c11.py.",
+        technique="compile-time instantiation witnesses with a conversion-free fancy pointer + def-use rule over -O0 LLVM IR",
+    ),
     "C12": dict(
         engine="irval", category="proof",
         text=("Byte-address identities and extent preservation, as closed forms on an arbitrary symbolic source view (D<=2 quick, <=3 thorough): "
